@@ -17,7 +17,7 @@ import (
 // The finite representative domain of C15, enumerated exhaustively.
 var (
 	c15Nums []any
-	c15Strs = []any{"", "0", "1", "1.1", "0.1", "-2.7", "3.3", "1.10", "1.5", "10", "9", "-1", "-0.5", "a", "A", "ab", "b", "é", " 1", "1 ", "2", "127", "255", "256", "-128"}
+	c15Strs = []any{"", "0", "1", "1000000", "1e+06", "4000000", "4e+06", "123456789", "1.1", "0.1", "-2.7", "3.3", "1.10", "1.5", "10", "9", "-1", "-0.5", "a", "A", "ab", "b", "é", " 1", "1 ", "2", "127", "255", "256", "-128"}
 )
 
 func c15Add(v any) { c15Nums = append(c15Nums, v) }
@@ -74,6 +74,13 @@ func init() {
 	for _, f := range []float64{1.1, 0.1, -2.7, 3.3, 16777217} {
 		c15Add(f)
 		c15Add(float32(f))
+	}
+	// integral values that print with an exponent as floats and without as integers
+	for _, f := range []float64{1000000, 4000000, 123456789} {
+		c15Add(f)
+		c15Add(int(f))
+		c15Add(int64(f))
+		c15Add(uint32(f))
 	}
 
 	nPairs := func() int { n := len(c15Nums) + len(c15Strs); return n * n }
@@ -193,13 +200,25 @@ func c15Pair(c *fw.Case) {
 	n := len(all)
 	a, b := all[c.Idx/n], all[c.Idx%n]
 	want, ok, feat := c15Expect(a, b)
+	got := compare.Compare(a, b)
+	rev := compare.Compare(b, a)
 	if !ok {
-		c.Discard("outside the exactly-representable range")
+		// outside the range in which the order itself is asserted the call is
+		// still made (a comparison must not leave anything behind that changes
+		// a later one), and it must still be a well-formed, antisymmetric answer
+		if got != -1 && got != 0 && got != 1 {
+			c.Violate("range", fmt.Sprintf("Compare(%s, %s) = %d, not in {-1,0,1}", show15(a), show15(b), got), map[string]any{"a": show15(a), "b": show15(b)})
+			return
+		}
+		if rev != -got && !(val.IsNumber(a) && val.IsNumber(b)) {
+			c.Violate("antisymmetry", fmt.Sprintf("Compare(%s, %s) = %d but Compare(%s, %s) = %d", show15(a), show15(b), got, show15(b), show15(a), rev), map[string]any{"a": show15(a), "b": show15(b)})
+			return
+		}
+		c.Feature("unasserted-order." + feat)
+		c.Count("pairs_outside_order_domain", 1)
 		return
 	}
 	c.Feature(feat)
-	got := compare.Compare(a, b)
-	rev := compare.Compare(b, a)
 	c.Sample(map[string]any{"a": show15(a), "b": show15(b), "compare": got, "exact_order": want})
 	det := map[string]any{"a": show15(a), "b": show15(b), "compare_ab": got, "compare_ba": rev, "exact_order": want}
 	if got != -1 && got != 0 && got != 1 {
